@@ -78,10 +78,15 @@ func (p *JWTPlugin) ID() string {
 }
 
 func (p *JWTPlugin) Configure(cfg *bramble.Config, data json.RawMessage) error {
-	err := json.Unmarshal(data, &p.config)
+	// Configure runs on every config reload: start from an empty configuration so that roles
+	// and keys removed from the file do not stay in effect
+	var config JWTPluginConfig
+	err := json.Unmarshal(data, &config)
 	if err != nil {
 		return err
 	}
+	p.config = config
+	p.keyProviders = nil
 
 	for _, k := range p.config.JWKS {
 		p.keyProviders = append(p.keyProviders, &k)
